@@ -114,8 +114,9 @@ def run(ctx):
         texts = [] if src in expensive else [vh.hexs(t) for t in TEXTS]
         cases.append({"op": "e2e", "src_hex": vh.hexs(src), "texts_hex": texts})
         meta.append((src, "original", src))
-        for name, v in vs:
-            cases.append({"op": "e2e", "src_hex": vh.hexs(v), "texts_hex": texts})
+        for k, (name, v) in enumerate(vs):
+            # the pass through libvore.Compile / (*Vore).Run on the original and on every eighth variant (it doubles the cost of a case)
+            cases.append({"op": "e2e", "src_hex": vh.hexs(v), "texts_hex": texts, "noapi": quick is False and k % 8 != 0})
             meta.append((src, name, v))
     res = vh.run_cases(cases, shards=12)
     orig = {}
@@ -155,7 +156,7 @@ def run(ctx):
     srcs = [v for (_, name, v) in meta]
     B = 4000
     for i in range(0, len(srcs), B):
-        front.compare_front(ctx, srcs[i:i + B], ["layout variant"] * len(srcs[i:i + B]), impl_prop=False)
+        front.compare_front(ctx, srcs[i:i + B], ["layout variant"] * len(srcs[i:i + B]), impl_prop=False, file=(i == 0))     # CompileFile on the first batch only: the variants were compiled once already
     ctx.coverage["evaluations"] = ev
     ctx.coverage["distinct_nontrivial"] = nt
     ctx.coverage["programs"] = len(orig)
